@@ -229,6 +229,13 @@ macro_rules! toks {
 }
 
 thread_local! {
+    /// C18: select! / select_ref! closures that read the state REJECT their token when the state does not reflect the
+    /// current position (count of tokens fed != index just after the token). Closures of select run in every mode, also
+    /// where no output is built (under not(), to_slice(), check()), so an inconsistent state there changes acceptance.
+    /// Only switched on for index-addressed inputs / ASCII text and grammars without with_state.
+    pub static STATE_GUARD: std::cell::Cell<bool> = std::cell::Cell::new(false);
+}
+thread_local! {
     /// C13: every node's concrete combinator is deep-cloned (its own `Clone` impl, recursively through the
     /// whole unboxed chain) and the CLONE is what gets boxed and used; the original is dropped
     pub static DEEP_CLONE: std::cell::Cell<bool> = std::cell::Cell::new(false);
@@ -340,6 +347,12 @@ pub mod vprims {
             Some(match flavour {
                 SelFlavour::Plain => Val::Tok(c),
                 SelFlavour::State => {
+                    if STATE_GUARD.with(|g| g.get()) {
+                        let (_, end) = e.span().se();
+                        if e.state().n != end as u64 {
+                            return None;
+                        }
+                    }
                     let st = e.state();
                     Val::St(st.n, st.h, Box::new(Val::Tok(c)))
                 }
@@ -364,6 +377,12 @@ pub mod vprims {
             Some(match flavour {
                 SelFlavour::Plain => Val::Tok(c),
                 SelFlavour::State => {
+                    if STATE_GUARD.with(|g| g.get()) {
+                        let (_, end) = e.span().se();
+                        if e.state().n != end as u64 {
+                            return None;
+                        }
+                    }
                     let st = e.state();
                     Val::St(st.n, st.h, Box::new(Val::Tok(c)))
                 }
@@ -533,7 +552,7 @@ impl<'s, I: Kind<'s>> Er<'s, I> for Rich<'s, I::Tok, I::Spn> {
         Rich::custom(span, msg)
     }
     fn desc(&self) -> ErrDesc {
-        let (found, expected, custom) = match self.reason() {
+        let (found, expected, mut custom) = match self.reason() {
             RichReason::ExpectedFound { expected, found } => {
                 let mut e: Vec<Pat> = expected.iter().map(pat_of).collect();
                 e.sort();
@@ -542,6 +561,14 @@ impl<'s, I: Kind<'s>> Er<'s, I> for Rich<'s, I::Tok, I::Spn> {
             }
             RichReason::Custom(m) => (None, None, Some(m.clone())),
         };
+        // the accessors the property names -- found(), expected() -- must describe the same error as reason()
+        let acc_found = self.found().map(|t| t.to_char());
+        let mut acc_expected: Vec<Pat> = self.expected().map(pat_of).collect();
+        acc_expected.sort();
+        acc_expected.dedup();
+        if acc_found != found.flatten() || acc_expected != expected.clone().unwrap_or_default() || self.reason().found().map(|t| t.to_char()) != acc_found {
+            custom = Some(format!("ACCESSORS DISAGREE: found() = {:?}, expected() = {:?}, reason() = {:?}", acc_found, acc_expected, (&found, &expected, &custom)));
+        }
         ErrDesc {
             span: self.span().se(),
             span_tag: self.span().tag(),
